@@ -90,6 +90,9 @@ type Model struct {
 	PoolGifts *big.Int
 	TxIndex  map[string]bool
 	Desync   string // non-empty: model gave up following (reason); layer-B comparisons stop
+	// KeyOnRecord: accounts whose public key is stored with the account (those of the genesis file; nothing in
+	// the code records a key later)
+	KeyOnRecord map[int]bool
 	kr       *Keyring
 }
 
@@ -132,7 +135,9 @@ func NewModel(kr *Keyring, g *Genesis) *Model {
 	m := &Model{Dust: map[string]*big.Int{}, Bal: map[string]*big.Int{}, Supply: new(big.Int), Vals: map[int]*MVal{}, Sign: map[int]*MSign{},
 		EverVal: map[int]bool{}, Awards: map[int]*big.Int{}, Burns: map[int]*big.Rat{}, P: DefaultMParams(),
 		PoolGifts: new(big.Int), TxIndex: map[string]bool{}, kr: kr}
+	m.KeyOnRecord = map[int]bool{}
 	for i, b := range g.Balances {
+		m.KeyOnRecord[i] = !g.outside(i)
 		m.Bal[acctKey(i)] = big.NewInt(b)
 		if d := g.EffectiveDust(i); d > 0 {
 			m.Dust[acctKey(i)] = big.NewInt(d)
@@ -483,6 +488,10 @@ func (m *Model) PredictTx(f *TxFacts) TxPrediction {
 	}
 	if !f.HonestSig {
 		p.MustReject, p.RejectReason, p.RejectProp, p.AnteOK = true, "signature-not-by-signer", "C03", false
+	}
+	if s.KeySrc == "state" && !m.KeyOnRecord[s.Acct] {
+		// no key travels with the signature and none is on record: there is nothing to verify the signature under
+		p.MustReject, p.RejectReason, p.RejectProp, p.AnteOK = true, "no-key-to-verify-under", "C03", false
 	}
 	req := m.RequiredFee(f.MsgType, f.BaseFee)
 	if f.Fee == nil {
